@@ -166,7 +166,7 @@ Proof.
   unfold no_owner. destruct (m_dest m) as [u|n]; cbn [fst snd].
   - repeat split; auto. right. destruct (m_noauto m); eexists; split; eauto; discriminate.
   - destruct (negb (m_noauto m) && activatable n).
-    + destruct (can_send cf m false); cbn [fst snd]; repeat split; auto. right. eexists; split; eauto; discriminate.
+    + destruct (can_send cf m false && negb (unknown_type m)); cbn [fst snd]; repeat split; auto. right. eexists; split; eauto; discriminate.
     + cbn [fst snd]. repeat split; auto. right. destruct (m_noauto m); eexists; split; eauto; discriminate.
 Qed.
 
@@ -243,7 +243,7 @@ Proof.
   destruct ((0 <? m_nfds m) && negb (conn_fds st r)); [intros H; inversion H; auto|].
   destruct (check_security_policy cf (st_now st) (st_pend st) c r m (is_full st r)) as [pl res] eqn:C.
   assert (Hs : forall p, In p pl -> In p (st_pend st)).
-  { revert C. unfold check_security_policy.
+  { revert C. unfold check_security_policy. destruct (unknown_type m); [intros H; inversion H; subst; auto|].
     destruct (m_rserial m =? 0).
     - destruct (negb (can_send cf m false)); [intros H; inversion H; subst; auto|].
       destruct (negb (can_receive cf m false)); [intros H; inversion H; subst; auto|]. destruct (is_full st r); [intros H; inversion H; subst; auto|].
@@ -275,7 +275,7 @@ Proof.
   destruct (check_security_policy cf (st_now st) (st_pend st) c r m (is_full st r)) as [pl res] eqn:C.
   destruct res as [e|]; intros H; inversion H; subst; [simpl; discriminate|].
   fold (fwd_out cf st c r m). rewrite fwd_to_single. intros Ha. apply N.eqb_eq in Ha. subst a. split; auto. split; auto.
-  revert C. unfold check_security_policy. apply N.eqb_neq in Hs. rewrite Hs.
+  revert C. unfold check_security_policy. destruct (unknown_type m); [intros X; discriminate|]. apply N.eqb_neq in Hs. rewrite Hs.
   destruct (check_reply (st_pend st) c r (m_rserial m)) as [pl1|] eqn:R.
   - destruct (check_reply_some _ _ _ _ _ R) as (l1 & p & l2 & E1 & E2 & Hm).
     destruct (negb (can_send cf m true)); [discriminate|]. destruct (negb (can_receive cf m true)); [discriminate|]. destruct (is_full st r); [discriminate|].
@@ -293,7 +293,7 @@ Lemma unrequested_refused cf st c m r :
   (forall p, In p (st_pend st) -> pend_match r c (m_rserial m) p = false) ->
   dispatch cf st c m = (st, [(c, OErr EAccessDenied (m_serial m))]).
 Proof.
-  intros Hr Hs Rs Hfd Hno. unfold dispatch, deliver. rewrite Rs, Hfd. unfold check_security_policy.
+  intros Hr Hs Rs Hfd Hno. unfold dispatch, deliver. rewrite Rs, Hfd. unfold check_security_policy. destruct (unknown_type m); [cbn; rewrite set_pend_same; reflexivity|].
   apply N.eqb_neq in Hs. rewrite Hs. apply check_reply_none in Hno. rewrite Hno.
   unfold can_send. rewrite Hr, Hs. simpl. rewrite set_pend_same. reflexivity.
 Qed.
@@ -302,7 +302,7 @@ Qed.
 Lemma csp_count cf now pl c r m fl pl' res a :
   (forall a, count_get a pl <= max_replies cf) -> check_security_policy cf now pl c r m fl = (pl', res) -> count_get a pl' <= max_replies cf.
 Proof.
-  intros Hl. unfold check_security_policy.
+  intros Hl. unfold check_security_policy. destruct (unknown_type m); [intros H; inversion H; subst; auto|].
   assert (G : forall pl1 rq, (forall a, count_get a pl1 <= max_replies cf) ->
      (if negb (can_send cf m rq) then (pl1, Some EAccessDenied)
       else if negb (can_receive cf m rq) then (pl1, Some EAccessDenied)
@@ -594,7 +594,7 @@ Proof.
   unfold plain_msg. intros Hfi Hp. apply andb_true_iff in Hp. destruct Hp as [Hp _]. unfold dispatch, deliver.
   destruct (resolve st (m_dest m)) as [r|] eqn:Rs; [|pose proof (no_owner_props cf st c m) as NP; destruct (no_owner cf st c m) as [stn on]; cbn [fst snd] in NP; destruct NP as (N1 & N2 & N3 & N4 & N5 & N6 & N7 & N8); intros H; inversion H; subst; apply SC_refused; auto; destruct N8 as [->|(e & -> & _)]; auto].
   destruct ((0 <? m_nfds m) && negb (conn_fds st r)); [intros H; inversion H; subst; apply SC_refused; auto|].
-  destruct (check_security_policy cf (st_now st) (st_pend st) c r m (is_full st r)) as [pl res] eqn:C. revert C. unfold check_security_policy.
+  destruct (check_security_policy cf (st_now st) (st_pend st) c r m (is_full st r)) as [pl res] eqn:C. revert C. unfold check_security_policy. destruct (unknown_type m); [intros C H; inversion C; subst; simpl in H; inversion H; subst; apply SC_refused; auto|].
   destruct (m_rserial m =? 0) eqn:R0.
   - apply N.eqb_eq in R0.
     destruct (negb (can_send cf m false)); [intros C H; inversion C; subst; simpl in H; inversion H; subst; apply SC_refused; auto|].
@@ -634,7 +634,7 @@ Qed.
 Lemma csp_getters cf now pl c r m fl pl' res :
   check_security_policy cf now pl c r m fl = (pl', res) -> forall p, In p pl' -> In p pl \/ p_get p = c.
 Proof.
-  unfold check_security_policy.
+  unfold check_security_policy. destruct (unknown_type m); [intros H; inversion H; subst; auto|].
   assert (G : forall pl1 rq, (forall p, In p pl1 -> In p pl) ->
      (if negb (can_send cf m rq) then (pl1, Some EAccessDenied)
       else if negb (can_receive cf m rq) then (pl1, Some EAccessDenied)
@@ -715,7 +715,7 @@ Proof.
       * intros n l x H1 H2. unfold is_full. rewrite Ff. rewrite Fh in H1. apply (Hh n l x H1 H2).
     + pose proof (no_owner_props cf st c m) as NP. unfold no_owner in *. destruct (m_dest m) as [u|n]; [cbn [fst] in *; split; auto|].
       destruct (negb (m_noauto m) && activatable n); [|cbn [fst]; split; auto].
-      destruct (can_send cf m false); cbn [fst]; [|split; auto]. split.
+      destruct (can_send cf m false && negb (unknown_type m)); cbn [fst]; [|split; auto]. split.
       * intros p Hp. apply (Hf p Hp).
       * intros n' l x H1 H2. cbn [st_held with_held] in H1. unfold is_full. cbn [st_full with_held]. apply set_held_in in H1.
         destruct H1 as [[-> ->]|H1]; [|apply (Hh n' l x H1 H2)]. apply in_app_iff in H2. destruct H2 as [H2|[<-|[]]]; [|exact W].
@@ -1231,7 +1231,7 @@ Theorem limit_refuses cf st c m r :
   (forall p, In p (st_pend st) -> pend_match c r (m_serial m) p = false) ->
   step cf st (ESend c m) = (st, [(c, OErr ELimitsExceeded (m_serial m))]).
 Proof.
-  intros W Hc Hn Hr Rs Hfd Hl Hno. rewrite step_send; auto. unfold dispatch, deliver. rewrite Rs, Hfd. unfold check_security_policy.
+  intros W Hc Hn Hr Rs Hfd Hl Hno. rewrite step_send; auto. unfold dispatch, deliver. rewrite Rs, Hfd. unfold check_security_policy. assert (Uk : unknown_type m = false) by (unfold unknown_type; unfold is_call in Hc; destruct (m_type m); auto; discriminate). rewrite Uk.
   assert (Hcs : forall rq, can_send cf m rq = true) by (intros rq; unfold can_send; rewrite Hr; destruct (restrictive cf); auto).
   assert (Hcr : forall rq, can_receive cf m rq = true) by (intros rq; unfold can_receive; rewrite Hr; destruct (restrictive cf); auto).
   rewrite Hr. cbn [N.eqb]. rewrite Hcs, Hcr. cbn [negb].
@@ -1321,7 +1321,7 @@ Qed.
 Lemma csp_error_kinds cf now pl c r m fl pl' e :
   check_security_policy cf now pl c r m fl = (pl', Some e) -> e = EAccessDenied \/ e = ELimitsExceeded.
 Proof.
-  unfold check_security_policy.
+  unfold check_security_policy. destruct (unknown_type m); [intros H; inversion H; auto|].
   assert (G : forall pl1 rq,
      (if negb (can_send cf m rq) then (pl1, Some EAccessDenied)
       else if negb (can_receive cf m rq) then (pl1, Some EAccessDenied)
@@ -1418,7 +1418,7 @@ Lemma no_owner_hold cf st c m :
 Proof.
   unfold no_owner, auto_starts. destruct (m_dest m) as [u|n]; [cbn [snd]; discriminate|].
   rewrite (andb_comm (activatable n)). destruct (negb (m_noauto m) && activatable n); [|cbn [snd]; discriminate].
-  destruct (can_send cf m false); cbn [fst snd]; [|discriminate]. intros _. exists n. auto.
+  destruct (can_send cf m false && negb (unknown_type m)); cbn [fst snd]; [|discriminate]. intros _. exists n. auto.
 Qed.
 
 Theorem send_exactly_once cf st c m :
@@ -1455,15 +1455,15 @@ Qed.
 
 Theorem permissive_delivers cf st c m r :
   wf_event st (ESend c m) = true -> restrictive cf = false -> resolve st (m_dest m) = Some r ->
-  (0 <? m_nfds m) && negb (conn_fds st r) = false -> is_full st r = false ->
+  (0 <? m_nfds m) && negb (conn_fds st r) = false -> is_full st r = false -> unknown_type m = false ->
   (is_call m = false \/ m_noreply m = true \/
    ((forall p, In p (st_pend st) -> pend_match c r (m_serial m) p = false) /\ count_get c (st_pend st) < max_replies cf)) ->
   snd (step cf st (ESend c m)) = fwd_out cf st c r m.
 Proof.
-  intros W Hr Rs Hf Hfl Hc. rewrite step_send; auto. unfold dispatch, deliver. rewrite Rs, Hfl.
+  intros W Hr Rs Hf Hfl Huk Hc. rewrite step_send; auto. unfold dispatch, deliver. rewrite Rs, Hfl.
   destruct (check_security_policy cf (st_now st) (st_pend st) c r m false) as [pl res] eqn:C.
   assert (res = None); [|subst res; rewrite Hf; reflexivity].
-  revert C. unfold check_security_policy.
+  revert C. unfold check_security_policy. rewrite Huk.
   assert (G : forall pl1 rq, (forall p, In p pl1 -> In p (st_pend st)) -> count_get c pl1 <= count_get c (st_pend st) ->
      (if negb (can_send cf m rq) then (pl1, Some EAccessDenied)
       else if negb (can_receive cf m rq) then (pl1, Some EAccessDenied)
@@ -1586,7 +1586,7 @@ Lemma csp_gs cf now pl c r m fl pl' res a s :
   (count_gs a s pl' <= count_gs a s pl +
      match res with None => if (c =? a) && (m_serial m =? s) then 1 else 0 | Some _ => 0 end)%nat.
 Proof.
-  unfold check_security_policy.
+  unfold check_security_policy. destruct (unknown_type m); [intros H; inversion H; subst; lia|].
   assert (G : forall pl1 rq, (count_gs a s pl1 <= count_gs a s pl)%nat ->
      (if negb (can_send cf m rq) then (pl1, Some EAccessDenied)
       else if negb (can_receive cf m rq) then (pl1, Some EAccessDenied)
@@ -1672,7 +1672,7 @@ Proof.
     + unfold no_owner. destruct (m_dest m) as [u|n].
       * cbn [fst snd filter]. unfold err_is. cbn [fst snd]. destruct ((c =? a) && (m_serial m =? s)); simpl; lia.
       * destruct (negb (m_noauto m) && activatable n).
-        -- destruct (can_send cf m false); cbn [fst snd filter].
+        -- destruct (can_send cf m false && negb (unknown_type m)); cbn [fst snd filter].
            ++ cbn [st_pend st_held with_held]. pose proof (hcount_set_held a s (st_held st) n (held_for (st_held st) n ++ [(c, m)])) as H.
               rewrite filter_app, app_length in H. cbn [filter] in H. unfold hkey at 3 in H. cbn [fst snd] in H.
               destruct ((c =? a) && (m_serial m =? s)); simpl in *; lia.
@@ -1807,7 +1807,7 @@ Theorem refused_leaves_no_slot cf st c m st' o :
 Proof.
   intros Hr. unfold dispatch, deliver. destruct (resolve st (m_dest m)) as [r|]; [|pose proof (no_owner_props cf st c m) as NP; destruct (no_owner cf st c m) as [stn on]; cbn [fst snd] in NP; destruct NP as (N1 & N2 & N3 & N4 & N5 & N6 & N7 & N8); intros H; inversion H; subst; auto].
   destruct ((0 <? m_nfds m) && negb (conn_fds st r)); [intros H; inversion H; auto|].
-  unfold check_security_policy. rewrite Hr. cbn [N.eqb].
+  unfold check_security_policy. destruct (unknown_type m); [intros H; inversion H; auto|]. rewrite Hr. cbn [N.eqb].
   destruct (negb (can_send cf m false)); [intros H; inversion H; auto|].
   destruct (negb (can_receive cf m false)); [intros H; inversion H; auto|].
   destruct (is_full st r); [intros H; inversion H; auto|].
@@ -1895,4 +1895,45 @@ Proof.
   - destruct (release (st_names st) c n) as [nm code]. cbn [snd]. eauto.
   - cbn [snd]. eauto.
   - cbn [snd]. eauto.
+Qed.
+
+(* ------------------------------------------------------------------ C09: refusals and the table, every message type *)
+(* a message of a type the bus does not know is refused before anything is looked up: AccessDenied (NotSupported if it carries fds
+   the recipient cannot take), nothing forwarded, and the state -- in particular the pending-reply table -- is untouched, whatever
+   REPLY_SERIAL it carries *)
+Theorem unknown_type_changes_nothing cf st c m :
+  unknown_type m = true -> resolve st (m_dest m) <> None ->
+  fst (dispatch cf st c m) = st /\
+  (snd (dispatch cf st c m) = [(c, OErr EAccessDenied (m_serial m))] \/ snd (dispatch cf st c m) = [(c, OErr ENotSupported (m_serial m))]).
+Proof.
+  intros Hu Hr. unfold dispatch, deliver. destruct (resolve st (m_dest m)) as [r|]; [|congruence].
+  destruct ((0 <? m_nfds m) && negb (conn_fds st r)); [cbn [fst snd]; auto|].
+  unfold check_security_policy. rewrite Hu. cbn [fst snd]. rewrite set_pend_same. auto.
+Qed.
+
+(* every refusal of every message leaves the table as it was -- except the two ways a message can be refused AFTER it consumed a
+   slot as a reply (finding F7b): a method call carrying REPLY_SERIAL bounced by the duplicate / limit test, and a reply to a caller
+   whose queue is full *)
+Theorem refused_leaves_table cf st c m st' o :
+  dispatch cf st c m = (st', o) -> (forall x, fwd_to o x = false) ->
+  (is_call m = true -> m_rserial m = 0) ->
+  (forall r, resolve st (m_dest m) = Some r -> m_rserial m <> 0 -> is_full st r = false) ->
+  st_pend st' = st_pend st.
+Proof.
+  intros D Hf Hc Hq. destruct (N.eq_dec (m_rserial m) 0) as [Z|Z]; [eapply refused_leaves_no_slot; eauto|].
+  revert D. unfold dispatch, deliver. destruct (resolve st (m_dest m)) as [r|] eqn:R.
+  2:{ pose proof (no_owner_props cf st c m) as NP. destruct (no_owner cf st c m) as [stn on]. cbn [fst snd] in NP.
+      destruct NP as (_ & _ & _ & _ & N5 & _). intros H. inversion H; subst. exact N5. }
+  destruct ((0 <? m_nfds m) && negb (conn_fds st r)); [intros H; inversion H; auto|].
+  assert (Hd : forall pl, (set_pend st pl, fwd_out cf st c r m) = (st', o) -> st_pend st' = st_pend st).
+  { intros pl H. inversion H; subst. specialize (Hf r). rewrite fwd_to_single, N.eqb_refl in Hf. discriminate. }
+  unfold check_security_policy. destruct (unknown_type m); [intros H; inversion H; auto|].
+  assert (Hnc : is_call m = false) by (destruct (is_call m); auto; exfalso; apply Z; auto).
+  assert (Hz : (m_rserial m =? 0) = false) by (apply N.eqb_neq; auto). rewrite Hz. rewrite (Hq r eq_refl Z).
+  destruct (check_reply (st_pend st) c r (m_rserial m)) as [pl1|].
+  - rewrite can_send_true, can_receive_true. cbn [negb].
+    unfold is_call in Hnc. destruct (m_type m); try discriminate; apply Hd.
+  - destruct (negb (can_send cf m false)); [intros H; inversion H; auto|].
+    destruct (negb (can_receive cf m false)); [intros H; inversion H; auto|].
+    unfold is_call in Hnc. destruct (m_type m); try discriminate; apply Hd.
 Qed.
